@@ -13,8 +13,8 @@ def build_lca():
     return text, located, dropped
 
 
-LCA_UNIT = Verus('c04_lca', build_lca, min_verified=31,
-                 contract='lca_pair, last_common_ancestor, Segment::previous (extracted; any graph, any number of heads, any order): lca_pair terminates and returns a command of the graph that is an '
+LCA_UNIT = Verus('c04_lca', build_lca, min_verified=46,
+                 contract='lca_pair, last_common_ancestor, Segment::previous, LinearStorage::{walk_collecting_skips, build_skip_list} (extracted; any graph, any number of heads, any order): build_skip_list returns only entries that satisfy the spine property A4 for the NEW segment (ancestors of its commands through which every ancestor with a max cut not above theirs passes), and at least one entry for a merge — so A4 holds for every stored segment by induction over the write order; lca_pair terminates and returns a command of the graph that is an '
                           'ancestor-or-self of both arguments AND a cut (every ancestor of either side with a max cut not above it passes through it — which is what makes the LCA recorded in a merge segment a sound skip entry, axiom A4 of C11, given A4 for the existing segments), with no Bug exit on a rooted graph; last_common_ancestor returns an ancestor-or-self of every head '
                           '(the braid drops everything at or below this cut as shared history)')
 
